@@ -120,6 +120,8 @@ impl Selector {
                 // this is just a wakeup event, ignore it
                 let mut buf = [0u8; 8];
                 // clear the eventfd, ignore the result
+                #[cfg(may_verif)]
+                crate::verif::point();
                 read(single_selector.evfd.as_fd(), &mut buf).ok();
                 // info!("got wakeup event in select, id={}", id);
                 scheduler.collect_global(id);
